@@ -321,12 +321,23 @@ class RepoLock:
         os.makedirs(BUILD, exist_ok=True)
         self.f = open(os.path.join(BUILD, ".repolock"), "w")
         if not os.environ.get("VERIF_HAVE_REPOLOCK"):
-            fcntl.flock(self.f, self.mode)
+            # writer preference: a writer holds the gate while it waits, so new readers queue behind it
+            self.g = open(os.path.join(BUILD, ".repogate"), "w")
+            if self.mode == fcntl.LOCK_EX:
+                fcntl.flock(self.g, fcntl.LOCK_EX)
+                fcntl.flock(self.f, fcntl.LOCK_EX)
+            else:
+                fcntl.flock(self.g, fcntl.LOCK_SH)
+                fcntl.flock(self.f, fcntl.LOCK_SH)
+                fcntl.flock(self.g, fcntl.LOCK_UN)
         return self
 
     def __exit__(self, *a):
         if not os.environ.get("VERIF_HAVE_REPOLOCK"):
             fcntl.flock(self.f, fcntl.LOCK_UN)
+            if self.mode == fcntl.LOCK_EX:
+                fcntl.flock(self.g, fcntl.LOCK_UN)
+            self.g.close()
         self.f.close()
 
 
